@@ -173,6 +173,11 @@ fn lockstep_deflate(streams: &mut Vec<DStream>, ar: &Arenas, plan: &DefPlan, ops
                     opi += 1;
                     continue;
                 }
+                DefOp::CopySwap => {
+                    // this engine has its own copy operations
+                    opi += 1;
+                    continue;
+                }
             }
             opi += 1;
         } else if finish {
